@@ -29,9 +29,11 @@ from piquasso.api.program import Program
 from piquasso.api.connector import BaseConnector
 from piquasso.api.exceptions import (
     InvalidParameter,
+    InvalidProgram,
     InvalidSimulation,
     InvalidState,
     InvalidModes,
+    InactiveModes,
 )
 from piquasso.api.instruction import (
     Instruction,
@@ -179,6 +181,12 @@ class Simulator(Computer, _mixins.CodeMixin):
                         f"{valid_indices_message}"
                     )
 
+            if len(set(instruction.modes)) != len(instruction.modes):
+                raise InvalidModes(
+                    f"Instruction '{instruction}' addresses the modes "
+                    f"'{instruction.modes}', which should be distinct."
+                )
+
     def _get_simulation_step(self, instruction: Instruction) -> Callable:
         for instruction_class, simulation_step in self._instruction_map.items():
             if type(instruction) is instruction_class:
@@ -232,10 +240,71 @@ class Simulator(Computer, _mixins.CodeMixin):
 
         self._validate_measurements_at_end(instructions)
 
+    def _validate_active_modes(self, instructions: List[Instruction], d: int) -> None:
+        """Checks that no instruction addresses a mode which has been measured.
+
+        The modes of a measurement are removed from the register during execution.
+        This is independent of the measurement outcomes, so it is checked beforehand.
+        """
+        active_modes = tuple(range(d))
+
+        for instruction in instructions:
+            modes = instruction.modes
+
+            if not modes:
+                number_of_modes = instruction.NUMBER_OF_MODES
+
+                if number_of_modes is not None and number_of_modes != len(active_modes):
+                    raise InvalidProgram(
+                        f"No modes got specified for the instruction '{instruction}', "
+                        f"so it would be applied to the modes '{active_modes}', but "
+                        f"exactly '{number_of_modes}' mode needs to be specified."
+                    )
+            else:
+                inactive_modes = {m for m in modes if m not in active_modes}
+
+                if inactive_modes:
+                    raise InactiveModes(
+                        f"Some modes of instruction {instruction} are not active: "
+                        f"{inactive_modes}."
+                    )
+
+            if isinstance(instruction, Measurement):
+                active_modes = (
+                    tuple(m for m in active_modes if m not in modes)
+                    if modes
+                    else tuple()
+                )
+
     def _validate_instructions(self, instructions: List[Instruction], d: int) -> None:
         self._validate_instruction_existence(instructions)
         self._validate_instruction_modes(instructions, d)
         self._validate_instruction_order(instructions)
+        self._validate_active_modes(instructions, d)
+
+    def _validate_shots_none_support(
+        self, instructions: List[Instruction], shots: Optional[int]
+    ) -> None:
+        if shots is not None:
+            return
+
+        for instruction in instructions:
+            if isinstance(instruction, Measurement) and not isinstance(
+                instruction, self._measurement_classes_allowed_with_shots_none
+            ):
+                raise InvalidParameter(
+                    f"The measurement '{type(instruction).__name__}' instruction does "
+                    f"not support 'shots=None' using '{self.__class__.__name__}'."
+                )
+
+    def _validate_resolved_parameters(self, instructions: List[Instruction]) -> None:
+        """Validates every parameter which does not depend on measurement outcomes."""
+        if not self.config.validate:
+            return
+
+        for instruction in instructions:
+            if instruction._is_resolved():
+                instruction._validate(self._connector)
 
     def _validate_initial_state(self, initial_state: State, d: int) -> None:
         if not isinstance(initial_state, self._state_class):
@@ -322,7 +391,7 @@ class Simulator(Computer, _mixins.CodeMixin):
                 instruction._resolve_params(outcomes=branch.outcome)
 
             try:
-                if self.config.validate:
+                if self.config.validate and not is_instruction_resolved:
                     instruction._validate(self._connector)
 
                 current_shots = (
@@ -433,8 +502,14 @@ class Simulator(Computer, _mixins.CodeMixin):
 
         self._validate_instructions(instructions, d)
 
+        self._validate_shots_none_support(instructions, shots)
+
         if initial_state is not None:
             self._validate_initial_state(initial_state, d)
+
+        self._validate_resolved_parameters(instructions)
+
+        if initial_state is not None:
             state = initial_state.copy()
         else:
             state = self.create_initial_state(d)
